@@ -13,6 +13,10 @@ def run(ctx):
     for a in ("Callback", "Cancel", "Finish"):
         if cov.get(a, (0, 0))[1] == 0:
             raise ToolError("vacuity: action %s never taken" % a)
+    if not ctx.quick:
+        # unbounded: TLAPS proves TypeOK / CancelWins inductive and the step form of NeverOkAfterRefusal for every Phases / MaxStep
+        nob = tlapm_prove("Progress_proofs", ["Progress"])
+        ctx.assumptions.append("thorough tier: tlapm discharged %d proof obligations of Progress_proofs (Spec => [](TypeOK /\\ CancelWins) for unbounded Phases and MaxStep; NeverOkAfterRefusalStep)" % nob)
     args = ["c23-record"] + ([] if ctx.quick else ["--thorough", "--stride", "3"])
     p = vh(args, timeout=3000)
     runs = [json.loads(l) for l in p.stdout.splitlines() if l.strip()]
